@@ -78,5 +78,9 @@ pub(crate) fn dash_to_camel(s: &str) -> CompactString {
             camel_name.push(c);
         }
     }
+    if camel_name.is_empty() {
+        // a name made of dashes only has no camel-case form: keep it (an empty name cannot be written back)
+        return s.into();
+    }
     camel_name
 }
